@@ -174,3 +174,45 @@ def fold_variants(text: str):
             yield ("fold:" + up, text[:i] + ch + text[i + len(up):])
             yield ("fold-lower:" + up, (text[:i] + ch + text[i + len(up):]).lower())
             start = i + 1
+
+
+# ---------------------------------------------------------------------- special BBAN bodies
+BODY_TOKENS = ["XXX", "XXXX", "XTS", "EUR", "USD", "TEST", "NULL", "NONE", "IBAN", "BIC", "NAN", "INF",
+               "TRUE", "00", "99", "AA", "ZZ", "0X1F", "1E5"]
+
+
+def special_bodies(country_obj, base: str, tokens=None, windows: bool = True):
+    """Structure-conforming BBANs carrying (a) a dictionary token, (b) a token with its last
+    character replaced by a neighbour of the same kind (one typo away from the token), (c) a run of
+    8 / 9 / 10 / 18 zeros or nines, (d) eight zeros followed by each non-zero digit - at EVERY
+    offset the country's structure admits.  Yields (label, body, (lo, hi)) with the region touched."""
+    n = len(base)
+    seen = set()
+
+    def emit(label, p, piece):
+        b = base[:p] + piece + base[p + len(piece):]
+        if len(b) == n and b != base and b not in seen and country_obj.matches(b):
+            seen.add(b)
+            return (label, b, (p, p + len(piece)))
+        return None
+
+    for tok in (BODY_TOKENS if tokens is None else tokens):
+        near = tok[:-1] + ("A" if tok[-1].isalpha() and tok[-1] != "A" else "B" if tok[-1] == "A"
+                           else "1" if tok[-1] != "1" else "2")
+        for p in range(0, n - len(tok) + 1):
+            for label, piece in (("token:" + tok, tok), ("near-token:" + tok, near)):
+                r = emit(label, p, piece)
+                if r:
+                    yield r
+    if windows:
+        for ch in "09":
+            for k in (8, 9, 10, 18):
+                for p in range(0, n - k + 1):
+                    r = emit(f"run:{ch}x{k}", p, ch * k)
+                    if r:
+                        yield r
+        for d in "123456789":
+            for p in range(0, n - 9 + 1):
+                r = emit("run:0x8+digit", p, "0" * 8 + d)
+                if r:
+                    yield r
